@@ -108,8 +108,16 @@ def step (s : St) (line : String) : St :=
     let p : Id × List Byte := (parseHexBytes id, parseHexBytes (rest.headD ""))
     if accepts s.c s.wrote p.1 then { s with out := s.out.push "ret=0 err=0", early := s.early.push p }
     else { s with out := s.out.push "ret=E err=0" }
-  | "w" :: _ :: ty :: _ :: n :: _ =>
-    { s with wrote := true, audio := s.audio + tyWidth ty * n.toNat! }
+  | "w" :: _ :: ty :: unit :: n :: _ =>
+    -- every write entry point (Sf.ChunkW.writeBy): `have_written` once the call is past its guards; the file is 16-bit mono
+    let fn := ChunkW.WriteFn.typed ((ChunkW.tyOfName ty).getD .s16) (unit == "f")
+    let cnt : Int := (n.toInt?).getD 0
+    { s with wrote := (ChunkW.writeBy ⟨s.c, s.wrote, WTab.init, []⟩ fn ⟨1, 2⟩ cnt).wrote,
+             audio := s.audio + (if fn.passes ⟨1, 2⟩ cnt then fn.bytes ⟨1, 2⟩ cnt else 0) }
+  | "wraw" :: _ :: n :: _ =>
+    let cnt : Int := (n.toInt?).getD 0
+    { s with wrote := (ChunkW.writeBy ⟨s.c, s.wrote, WTab.init, []⟩ .raw ⟨1, 2⟩ cnt).wrote,
+             audio := s.audio + (if ChunkW.WriteFn.raw.passes ⟨1, 2⟩ cnt then ChunkW.WriteFn.raw.bytes ⟨1, 2⟩ cnt else 0) }
   | "close" :: _ => if s.tab.isEmpty && s.classes.isEmpty then finish s else s
   | "chunkall" :: _ :: id :: rest =>
     if s.classes.length > 0 then s else
